@@ -40,6 +40,12 @@ void reindent_line(Chunk *pc, size_t column)
            column);
    log_func_stack_inline(LINDLINE);
 
+   if (static_cast<ptrdiff_t>(column) < 1)
+   {
+      // indent arithmetic on unsigned columns went below the first column
+      column = 1;
+   }
+
    if (column == pc->GetColumn())
    {
       return;
